@@ -70,6 +70,20 @@ def run(chk):
     chk.extra["outcomes"] = outcomes
     for t, ops in hs[:3]:
         chk.sample({"history": ops[:14]})
+    # evaluator level: the tracked outcome of a measured qubit/register equals the bits the measurement returned, whatever simulator indices the register occupies
+    import qobjgen
+    qprogs, qout, qinc = qobjgen.run_family(chk.rng, 600 if chk.thorough else 120)
+    qbad = None
+    for qp, ql in zip(qprogs, qout):
+        chk.count(("qobj", qp.text) if ql.startswith("ok ") else None)
+        w = qobjgen.judge(qp, ql, "tracked")
+        if w and qbad is None:
+            qbad = (qp, ql, w)
+    chk.extra["evaluator_level_programs"] = len(qprogs)
+    if qbad:
+        qp, ql, w = qbad
+        chk.violation("quantum object program (constant draw %.1f): %s\n%s" % (qp.draw, w, qp.text[-900:]),
+                      {"source": qp.text, "draw": qp.draw, "kind": "qobj", "clause": "tracked"})
     if bad:
         hi, i, why = bad
         ops = hs[hi][1][:i + 1]
@@ -80,4 +94,12 @@ def run(chk):
 
 
 def replay(path):
+    import json as _json
+    _o = _json.load(open(path))
+    if _o.get("kind") == "qobj":
+        import evallib, qobjgen
+        from framework import run_guarded
+        out, _ = run_guarded(evallib.harness(), ["run %s 1 %s" % (evallib.hx(_o["source"]), evallib.draws_arg([_o["draw"]] * 400))])
+        print(_o["source"]); print(" ->", evallib.split_result(out[0]).get("echo_lines", out[0][:200]), evallib.split_result(out[0]).get("tracked"))
+        return 1
     return simlib.generic_replay(path, "Born/collapse oracle", oracle_fails)
